@@ -16,7 +16,12 @@ pub struct C02;
 const VOUCHED_NAME: &str = "VouchedByService";
 
 fn generate(rng: &mut Rng, index: u64) -> ConnScenario {
+    // a quarter of the runs are two-connection histories: an earlier connection handled by the same process
+    // presented the genuine cookie (and was accepted), then this one presents the variant. Whatever the code
+    // under simulation remembers about cookies it has seen is primed that way.
+    let with_prior = rng.chance(1, 4);
     let secret_cfg: Option<Vec<u8>> = match rng.below(9) {
+        0 if with_prior => Some(rng.bytes(32)),
         0 => None,
         1 => Some(vec![]),
         2 => Some(rng.bytes(3)),
@@ -28,7 +33,7 @@ fn generate(rng: &mut Rng, index: u64) -> ConnScenario {
         _ => Some(rng.bytes(32)),
     };
     let signing_secret = secret_cfg.clone().unwrap_or_else(|| b"unconfigured".to_vec());
-    let intent = if rng.chance(1, 6) { 2 } else { 3 };
+    let intent = if rng.chance(1, 6) && !with_prior { 2 } else { 3 };
     let client_addr = match rng.below(10) {
         // an IPv6 client whose address embeds an IPv4 one (IPv4-compatible form)
         0 => format!("[::{}.{}.{}.{}]:{}", rng.range(1, 223), rng.below(256), rng.below(256), rng.range(1, 254), rng.range(1024, 65535)),
@@ -37,12 +42,13 @@ fn generate(rng: &mut Rng, index: u64) -> ConnScenario {
     let expiry = *rng.pick(&[0u64, 1, 60, 21_600, 21_600, 1 << 63, u64::MAX]);
     // the client may take its time before it answers the authentication cookie request, and the wall
     // clock may step meanwhile: the age that counts is the one at the moment the cookie is checked
-    let think_s: u64 = *rng.pick(&[0u64, 0, 0, 1, 2, 30, 3000]);
+    let think_s: u64 = if with_prior { 0 } else { *rng.pick(&[0u64, 0, 0, 1, 2, 30, 3000]) };
     let jump: Option<(u64, i64)> = if think_s > 0 && rng.chance(1, 3) { Some((secs(think_s) / 2, *rng.pick(&[-7200i64, -1, 1, 61, 86_400]))) } else { None };
     let wall = Wall { base_s: 1_800_000_000, jumps: jump.into_iter().collect() };
     // age relative to expiry
     let now = wall.at(secs(think_s));
     let ts = match rng.below(8) {
+        _ if with_prior => now.saturating_sub(rng.below(expiry.clamp(1, 1000))),
         0 => now,
         1 => now.saturating_sub(expiry.saturating_sub(1)),
         2 => now.saturating_sub(expiry),
@@ -53,6 +59,7 @@ fn generate(rng: &mut Rng, index: u64) -> ConnScenario {
     };
     let id = Identity { name: if rng.chance(1, 5) { gen_name(rng) } else { format!("InCookie{}", rng.below(50)) }, uuid: gen_uuid(rng), props: gen_props(rng) };
     let cookie_addr = match rng.below(9) {
+        _ if with_prior => client_addr.clone(),
         0 => gen_addr(rng),
         // a different address that merely embeds / is embedded in the client's (IPv4-compatible IPv6)
         6 | 7 => {
@@ -85,7 +92,7 @@ fn generate(rng: &mut Rng, index: u64) -> ConnScenario {
     // the variant axis is enumerated by index so every truncation and bit flip is covered
     let nflip = valid.len() as u64 * 8;
     let ntrunc = valid.len() as u64 + 1;
-    let nother = 14u64;
+    let nother = 17u64;
     let v = if index % 4 == 3 { 0 } else { (index / 4 * 3 + index % 4) % (1 + ntrunc + nflip + nother) };
     let presented: Option<Vec<u8>> = if v == 0 {
         Some(valid.clone())
@@ -133,6 +140,19 @@ fn generate(rng: &mut Rng, index: u64) -> ConnScenario {
             }
             11 => Some(signed_cookie(&signing_secret, b"[]")),
             12 => Some(body.clone()), // body without a tag
+            13 | 14 => {
+                // the genuine tag in front of a well-formed body naming somebody else
+                let other = Identity { name: format!("Forged{}", rng.below(50)), uuid: gen_uuid(rng), props: vec![] };
+                let mut x = valid[..32].to_vec();
+                x.extend_from_slice(&cookie_json(ts, &cookie_addr, &other, target));
+                Some(x)
+            }
+            15 => {
+                // the genuine tag in front of the same body with a later timestamp (a self-made renewal)
+                let mut x = valid[..32].to_vec();
+                x.extend_from_slice(&cookie_json(ts.saturating_add(1 + rng.below(100_000)), &cookie_addr, &id, target));
+                Some(x)
+            }
             _ => Some(valid.clone()),
         }
     };
@@ -160,8 +180,17 @@ fn generate(rng: &mut Rng, index: u64) -> ConnScenario {
         client,
         wplan: vec![],
         cap_ns: secs(3600),
+        prelude: vec![],
     };
     zero_time_noise(rng, &mut sc);
+    if with_prior {
+        let mut prior = sc.clone();
+        prior.client.auth_cookie = Some(valid);
+        prior.seed ^= 0x0707_0707;
+        prior.client.rng ^= 0x77;
+        // one or two earlier connections with the genuine cookie
+        sc.prelude = if rng.chance(1, 3) { vec![prior.clone(), prior] } else { vec![prior] };
+    }
     sc
 }
 
@@ -272,8 +301,20 @@ impl Check for C02 {
         if !conn_domain_ok(sc) || !matches!(sc.client.intent, 2 | 3) || sc.client.script.is_some() || !sc.client.mutations.is_empty() || !matches!(sc.client.enc, crate::client::EncVariant::Honest) || !transport_is_zero_time(sc) {
             return RunReport::default(); // outside this check's domain (shrinking may propose such scenarios)
         }
+        let prior: Vec<(&ConnScenario, ConnOutcome)> = sc.prelude.iter().filter(|p| p.prelude.is_empty() && transport_is_zero_time(p)).map(|p| (p, run_conn(p))).collect();
         let out = run_conn(sc);
         let mut rep = base_report(&out);
+        for (p, o) in &prior {
+            rep.runs += 1;
+            rep.sim_ns += o.end_ns;
+            rep.trace_hash = rep.trace_hash.rotate_left(13) ^ o.trace_hash();
+            rep.full_hash = rep.full_hash.rotate_left(13) ^ o.full_hash();
+            *rep.faults.entry("earlier_connection_presented_the_genuine_cookie".into()).or_insert(0) += 1;
+            if o.view.first("EncryptionRequest").is_some_and(|e| e.fields["should_authenticate"] == json!(0)) {
+                *rep.probes.entry("earlier_connection_was_accepted_by_cookie".into()).or_insert(0) += 1;
+            }
+            check(p, o, &mut rep);
+        }
         rep.nontrivial = sc.client.intent == 3 && sc.cfg.secret.is_some() && sc.client.auth_cookie.is_some();
         let class = match &sc.client.auth_cookie {
             None => 0u64,
